@@ -179,3 +179,29 @@ def short_ecdsa_signature(cred, msg, scheme=None, tries=20000):
         if len(sig) < usual:
             return sig
     return best
+
+
+def rsa_cred_exponent(e, kind="RS256"):
+    """An RSA credential whose public exponent is `e` (not 65537): built from the primes of a stored key."""
+    import math
+    for slot in range(0, 6):
+        base = rsa_key(slot).private_numbers()
+        p, q = base.p, base.q
+        phi = (p - 1) * (q - 1)
+        if math.gcd(e, phi) == 1:
+            d = pow(e, -1, phi)
+            nums = rsa.RSAPrivateNumbers(p, q, d, d % (p - 1), d % (q - 1), pow(q, -1, p), rsa.RSAPublicNumbers(e, p * q))
+            return Cred(kind, sk=nums.private_key())
+    raise RuntimeError("no stored RSA key is compatible with exponent %d" % e)
+
+
+def p256_cred_with_x_prefix(prefix=b"\x04", kind="ES256-P256"):
+    """A P-256 credential whose x coordinate starts with `prefix` (private scalars 1, 2, 3, ... until one fits)."""
+    def make():
+        d = 1
+        while True:
+            k = ec.derive_private_key(d, ec.SECP256R1())
+            if k.public_key().public_numbers().x.to_bytes(32, "big").startswith(prefix):
+                return k
+            d += 1
+    return Cred(kind, sk=_load_or_make("ec_p256_x_prefix_" + prefix.hex(), make))
